@@ -30,6 +30,7 @@ class FS:
         self.pickles = {}      # origin -> object
         self.serial = 0
         self.recording = True
+        self.handles = []
 
     def prim(self, what):
         if self.recording:
@@ -53,8 +54,11 @@ CUR = None      # current FS
 
 
 class FakeFile:
+    """file handle with a user-space write buffer: written data reaches the file (the directory entry the handle currently
+    belongs to, renames followed) only on flush() / close(); a kill loses what is still buffered"""
+
     def __init__(self, name, mode='r'):
-        self.name, self.mode, self.pos = name, mode, 0
+        self.name, self.mode, self.pos, self.buf, self.closed = name, mode, 0, Blob(), False
         if 'w' in mode:
             CUR.files[name] = Blob()
             CUR.prim('create ' + name)
@@ -62,10 +66,16 @@ class FakeFile:
             CUR.files.setdefault(name, Blob())
         elif name not in CUR.files:
             raise IOError(2, 'No such file', name)
+        CUR.handles.append(self)
 
     def write(self, data):
-        CUR.files[self.name] = CUR.files[self.name] + Blob.coerce(data)
-        CUR.prim('append-write ' + self.name)
+        self.buf = self.buf + Blob.coerce(data)
+
+    def flush(self):
+        if self.buf.segs and self.name in CUR.files:
+            CUR.files[self.name] = CUR.files[self.name] + self.buf
+            CUR.prim('flush ' + self.name)
+        self.buf = Blob()
 
     def read(self, n=None):
         f = CUR.files[self.name]
@@ -80,17 +90,25 @@ class FakeFile:
     def fileno(self):
         return self.name
 
-    def flush(self):
-        pass
-
     def close(self):
-        pass
+        if not self.closed:
+            self.flush()
+            self.closed = True
 
     def __enter__(self):
         return self
 
     def __exit__(self, *a):
+        self.close()
         return False
+
+
+def _rename(a, b):
+    CUR.files[b] = CUR.files.pop(a)
+    for h in CUR.handles:
+        if h.name == a and not h.closed:
+            h.name = b
+    CUR.prim('rename %s -> %s' % (a, b))
 
 
 class FakeMmap:
@@ -219,15 +237,13 @@ class _Os:
 
     @staticmethod
     def rename(a, b):
-        CUR.files[b] = CUR.files.pop(a)
-        CUR.prim('rename %s -> %s' % (a, b))
+        _rename(a, b)
 
 
 class _Shutil:
     @staticmethod
     def move(a, b):
-        CUR.files[b] = CUR.files.pop(a)
-        CUR.prim('rename %s -> %s' % (a, b))
+        _rename(a, b)
 
 
 _REAL = {}
